@@ -194,10 +194,18 @@ func runC05(c *Ctx) {
 	var cmpEdgesOK []core.Edge
 	func() {
 		var hcall *ssa.Call
-		for _, call := range core.Calls(rb) {
-			if f := core.CalleeFunc(call); f != nil && core.IsFunc(f, "github.com/go-faster/city", "CH128") {
-				hcall, _ = call.(*ssa.Call)
+		for _, hf := range append([]*ssa.Function{rb}, core.StaticReachList(rb)...) {
+			if hf == nil || pkgOf(hf) == nil || pkgOf(hf).Path() != core.PkgCompress || hcall != nil {
+				continue
 			}
+			for _, call := range core.Calls(hf) {
+				if f := core.CalleeFunc(call); f != nil && core.IsFunc(f, "github.com/go-faster/city", "CH128") {
+					hcall, _ = call.(*ssa.Call)
+				}
+			}
+		}
+		isHash := func(v ssa.Value) bool {
+			return v == ssa.Value(hcall) || core.DependsOnResults(v, func(x ssa.Value) bool { return x == ssa.Value(hcall) })
 		}
 		if hcall == nil {
 			c.R.Bad(rule, core.FuncName(rb), cfg, p.Pos(rb.Pos()), "no checksum is computed over the frame")
@@ -220,7 +228,7 @@ func runC05(c *Ctx) {
 			if !ok || (bo.Op != token.NEQ && bo.Op != token.EQL) {
 				return false, false
 			}
-			if bo.X != ssa.Value(hcall) && bo.Y != ssa.Value(hcall) {
+			if !isHash(bo.X) && !isHash(bo.Y) {
 				return false, false
 			}
 			return bo.Op == token.NEQ, true // predicate: hashes differ
@@ -294,16 +302,16 @@ func runC05(c *Ctx) {
 					}
 				}
 				fromHash := func(v ssa.Value) bool {
-					return v != nil && core.DependsOn(v, func(x ssa.Value) bool {
+					return v != nil && core.DependsOnResults(v, func(x ssa.Value) bool {
 						_, ok := core.CallTo(x, func(f *types.Func) bool { return core.IsFunc(f, "github.com/go-faster/city", "CH128") })
 						return ok
-					}, false)
+					})
 				}
 				fromHeader := func(v ssa.Value) bool {
-					return v != nil && !fromHash(v) && core.DependsOn(v, func(x ssa.Value) bool {
+					return v != nil && !fromHash(v) && core.DependsOnResults(v, func(x ssa.Value) bool {
 						_, ok := core.CallTo(x, isLEUint("Uint64"))
 						return ok
-					}, false)
+					})
 				}
 				if fromHash(act) && fromHeader(ref) {
 					okLit = true
